@@ -1,4 +1,5 @@
 import OxiVerif.Model.C02
+import OxiVerif.Lemmas.C02
 import OxiVerif.Props.C18
 /-!
 # C02 — documents written by the library read back with the same content
@@ -303,5 +304,161 @@ theorem C02_content_data_partial (cfg : Cfg) (z : Bytes → Bytes) (unz : Bytes 
     simp [graphOf, contentObj, hc, this, hasFlate, dictGet]
 
 example : ∀ c : Bytes, (fun r => some (r.drop 1)) ((fun c => 0 :: c) c) = some c := by intro c; rfl
+
+/-! ## composition: reading the written objects -/
+
+theorem toR_content (cfg : Cfg) (z : Bytes → Bytes) (j : Nat) (p : PageD) :
+    ∃ D, (toR (contentObj cfg z j p)).2 = .stream D (serXs (emitOps p)) := by
+  cases hc : cfg.compress <;> simp [toR, contentObj, hc]
+
+theorem catalog_pages (m : Nat) : ∃ kvs', rb (catalogDict m) = .dict kvs' ∧
+    dget (Obj.dict kvs') "Pages" = some (.ref 2 0) := by
+  obtain ⟨kvs', hk⟩ := rb_dict_isDict [(key "Type", nm "Catalog"), (key "Pages", .ref 2 0), (key "Metadata", .ref m 0)]
+  refine ⟨kvs', hk, ?_⟩
+  rw [← hk, dget_rb_dict _ (by simp [keysOf, key, ascii])]
+  simp [dictGet, key, ascii, rb_ref]
+
+theorem readPages_written (g : Graph) (ps : List PageD) : ∀ i,
+    (∀ j p, ps[j]? = some p → g.get (pageId (i + j)) = some (.plain (rb (pageDict (i + j) p []))) ∧
+      ∃ D, g.get (contentId (i + j)) = some (.stream D (serXs (emitOps p)))) →
+    (∀ p ∈ ps, imagesOf p.ops = [] ∧
+      Model.CT.parseContent (serXs (emitOps p)) = some ((emitOps p).map expectParsed)) →
+    readPages g i ((List.range' i ps.length).map pageId) = .ok (ps.map normPage) := by
+  induction ps with
+  | nil => intro i _ _; rfl
+  | cons p r ih =>
+    intro i hg hp
+    obtain ⟨h1, D, h2⟩ := hg 0 p rfl
+    obtain ⟨hni, hc⟩ := hp p (by simp)
+    have hpage := readPage_written g i p D hni h1 h2 hc
+    have hrest := ih (i + 1)
+      (fun j q hj => by
+        have := hg (j + 1) q (by simpa using hj)
+        have e : i + (j + 1) = i + 1 + j := by omega
+        rw [e] at this; exact this)
+      (fun q hq => hp q (by simp [hq]))
+    simp only [List.length_cons, List.range'_succ, List.map_cons, readPages, hpage, hrest]
+
+/- FULL (object level): for every document `d`, configuration `cfg`, codec `z`/`unz`:
+     `readDoc (graph of (buildObjects cfg z extra d)) 1 (some 3) = .ok (norm d extra)`
+   and, with `C02_emit_is_call_order`, the operators of every page are `(specOps p).map expectParsed`. -/
+
+/-- PARTIAL composition at the level of objects.  What a faithful object parser (C09:
+    `rb = readBack ∘ sortDicts`) and the Flate decoder make of the objects `write_document`
+    builds, read by the library's document reader (catalog → `/Pages` → `flatten_page_tree` →
+    pages → content parser), is the authored page list: same number of pages, in order, each with
+    its MediaBox, rotation, and the operators of its authoring calls in call order.
+    Named hypotheses, nothing else is assumed:
+    * `hz`   — Flate: the decoder inverts the encoder (`flate2`, tied per run by the code book);
+    * `hc`   — content round trip of each page's operators (the statement of C21,
+               `C21_roundtrip_partial`, for the operator families it covers; dash arrays are
+               outside it; the bridge from C21's `serializeOps fmt` to `serXs` is not formalised;
+               evaluated by the driver on every page);
+    * `hni`  — no images on the pages (image ids / the `/XObject` dictionary are not composed);
+    * `hmax` — at most `MAX_PAGES` pages (the reader's flat index stops there).
+    Info strings are not part of the conclusion (`∃ info`). -/
+theorem C02_read_objects_partial (cfg : Cfg) (z : Bytes → Bytes) (unz : Bytes → Option Bytes)
+    (extra : List (Bytes × Obj)) (d : Doc)
+    (hz : ∀ c, unz (z c) = some c)
+    (hni : ∀ p ∈ d.pages, imagesOf p.ops = [])
+    (hc : ∀ p ∈ d.pages, Model.CT.parseContent (serXs (emitOps p)) = some ((emitOps p).map expectParsed))
+    (hmax : d.pages.length ≤ C18.MAX_PAGES) :
+    ∃ g info, graphOf (fun v => some (rb v)) unz (buildObjects cfg z extra d) = some g ∧
+      readDoc g 1 (some 3) = .ok { pages := d.pages.map normPage, info := info } := by
+  refine ⟨(buildObjects cfg z extra d).map toR, readInfo ((buildObjects cfg z extra d).map toR) (some 3),
+    graphOf_eq unz _ (streamOK_buildObjects cfg z unz hz extra d hni), ?_⟩
+  obtain ⟨f2, f1, fp⟩ := find_build cfg z extra d hni
+  generalize hg' : ((buildObjects cfg z extra d).map toR : Graph) = g
+  have hg := hg'.symm
+  have g1 : Graph.get g 1 = some (.plain (rb (catalogDict (xmpIdOf d)))) := by
+    rw [hg, get_map_toR, f1]; rfl
+  have g2 : Graph.get g 2 = some (.plain (rb (pagesDict d.pages.length))) := by
+    rw [hg, get_map_toR, f2]; rfl
+  have gp : ∀ j p, d.pages[j]? = some p →
+      Graph.get g (pageId (0 + j)) = some (.plain (rb (pageDict (0 + j) p []))) ∧
+      ∃ D, Graph.get g (contentId (0 + j)) = some (.stream D (serXs (emitOps p))) := by
+    intro j p hj
+    obtain ⟨a, b⟩ := fp j p hj
+    obtain ⟨D, hD⟩ := toR_content cfg z j p
+    simp only [Nat.zero_add]
+    refine ⟨by rw [hg, get_map_toR, a]; rfl, D, by rw [hg, get_map_toR, b]; simp [hD]⟩
+  obtain ⟨ckvs, hck, hcp⟩ := catalog_pages (xmpIdOf d)
+  obtain ⟨pkvs, hpk⟩ := rb_dict_isDict (pagesKvs d.pages.length)
+  have hpages := readPages_written g d.pages 0 gp (fun p hp => ⟨hni p hp, hc p hp⟩)
+  have hcls : ∀ i < d.pages.length, C18.classify (c18Graph g) (pageId i) = .leaf := by
+    intro i hi
+    have hj : d.pages[i]? = some d.pages[i] := by simp [hi]
+    have := (gp i _ hj).1
+    simp only [Nat.zero_add] at this
+    exact classify_page g i _ this
+  obtain ⟨_, hkids⟩ := c18Dict_pages (g' := c18Graph g) d.pages.length
+  have hflat : C18.flatten (c18Graph g) (c18Dict (rb (pagesDict d.pages.length))) =
+      some ((List.range d.pages.length).map pageId) := by
+    simp only [C18.flatten, hkids]
+    exact C02_flatten_written_tree _ _ _ hcls hmax (by simp [C18.fuelBound])
+  simp only [readDoc, g1, Option.bind, RObj.dict?, hck, hcp, resolveDict, resolve, g2,
+    pagesDict_eq, hpk]
+  rw [← hpk, ← pagesDict_eq, hflat]
+  simp only [List.range_eq_range', hpages]
+
+/-! ## composition: the file -/
+
+theorem normPage_eq_observedPage (p : PageD) : normPage p = observedPage p := by
+  simp [observedPage, normPage, C02_emit_is_call_order]
+
+/- FULL: `∀ d cfg …, read fileGraph (write cfg z perm xmp version extra d) = .ok ⟨d.pages.map observedPage, info⟩`
+   for the library's actual file reader `fileGraph`, with no hypothesis on `d`. -/
+
+/-- `C02_read_write`, PARTIAL: every remaining hypothesis is named.
+    For every document, every writer configuration (classic table / xref stream / object
+    streams, compression on/off), every PDF version: reading the written file gives the authored
+    pages — count, order, MediaBox, rotation, operators in CALL order with the authored operands.
+    * `hFile` — the file layer: the reader's cross-reference reading + object parsing + stream
+      decoding applied to the written bytes yields, for every written object, the value
+      `rb = readBack ∘ sortDicts` of it under its number (and the decoded stream data).  This is
+      the conjunction of C03 (`C03_classic_entries_point_at_objects`,
+      `C03_xref_stream_entries_point_at_objects`, `C03_written_xref_stream_decodes`,
+      `C03_compressed_entry_names_member`, `C03_stream_length`: every entry leads to its object,
+      in every configuration) and C09 (`C09_lib_roundtrip_partial`: `parseObj (ser v ++ rest) =
+      ok (rb v, rest)` under `SafeLib`); it is NOT composed here (no model of the xref reader in
+      this property) and is evaluated on every generated file by the driver;
+    * `hz`, `hc`, `hni`, `hmax` — as in `C02_read_objects_partial` (Flate inverse; content round
+      trip = C21's statement; no images; at most `MAX_PAGES` pages).
+    Proved inside: object ids and order of `write_document`, every dictionary lookup through
+    sorting and parsing (`dget_rb_dict`), `/Kids` order, `flatten_page_tree` on the written tree
+    (C18), page attribute reading, content data per configuration, and call order
+    (`C02_emit_is_call_order`). -/
+theorem C02_read_write_partial (cfg : Cfg) (z : Bytes → Bytes) (unz : Bytes → Option Bytes)
+    (perm : List C03.DictE → List C03.DictE) (xmp : C03.Body) (version : Bytes)
+    (extra : List (Bytes × Obj)) (d : Doc) (fileGraph : Bytes → Option Graph)
+    (hFile : fileGraph (write cfg z perm xmp version extra d) =
+      graphOf (fun v => some (rb v)) unz (buildObjects cfg z extra d))
+    (hz : ∀ c, unz (z c) = some c)
+    (hni : ∀ p ∈ d.pages, imagesOf p.ops = [])
+    (hc : ∀ p ∈ d.pages, Model.CT.parseContent (serXs (specOps p)) = some ((specOps p).map expectParsed))
+    (hmax : d.pages.length ≤ C18.MAX_PAGES) :
+    ∃ info, read fileGraph (write cfg z perm xmp version extra d) =
+      .ok { pages := d.pages.map observedPage, info := info } := by
+  obtain ⟨g, info, hg, hr⟩ := C02_read_objects_partial cfg z unz extra d hz hni
+    (fun p hp => by simpa [C02_emit_is_call_order] using hc p hp) hmax
+  refine ⟨info, ?_⟩
+  simp only [read, hFile, hg, hr]
+  congr 2
+  exact List.map_congr_left (fun p _ => normPage_eq_observedPage p)
+
+/-- non-vacuity of the document-side hypotheses: no images, and the content round trip holds
+    (by evaluation) for a page with a path -/
+example : let d : Doc := ⟨[], [⟨[49, 48, 48], [50, 48, 48], [.save, .moveTo [49] [50]]⟩]⟩
+    (∀ p ∈ d.pages, imagesOf p.ops = []) ∧
+    (∀ p ∈ d.pages, Model.CT.parseContent (serXs (specOps p)) = some ((specOps p).map expectParsed)) ∧
+    d.pages.length ≤ C18.MAX_PAGES := by
+  intro d
+  refine ⟨?_, ?_, by decide⟩
+  · intro p hp
+    have : p = ⟨[49, 48, 48], [50, 48, 48], [.save, .moveTo [49] [50]]⟩ := by simpa [d] using hp
+    subst this; rfl
+  · intro p hp
+    have : p = ⟨[49, 48, 48], [50, 48, 48], [.save, .moveTo [49] [50]]⟩ := by simpa [d] using hp
+    subst this; rfl
 
 end OxiVerif.C02
